@@ -326,7 +326,52 @@ def r7(F, rep):
         raise AnalysisBroken("no stream-state recovery branch found in the replica readers")
 
 
+def r8(F, rep):
+    rep.rule("C14-R8", "a search result belongs to one iteration: in the multiple-walker code, a boolean that an inner loop sets "
+                       "to true (a search over the known peers) and that the enclosing loop tests afterwards is declared, or "
+                       "reset to false, inside the body of the enclosing loop -- otherwise the first hit answers the question "
+                       "for every later record (peers listed after an already-known one are never added)")
+    from .rules_c10 import lvalue_writes
+
+    def walk(n):
+        yield n
+        for c in X.kids(n):
+            if c is not None:
+                yield from walk(c)
+    LOOPS = ("WhileStmt", "ForStmt", "DoStmt", "CXXForRangeStmt")
+    n = 0
+    for f in F.funcs.values():
+        if f.cls not in ("colvarbias_meta", "colvarbias_abf") or f.body is None or "/src/" not in f.file:
+            continue
+        decls = {d["d"]: d for d in f.walk() if d["k"] == "VarDecl" and d.get("st") == "local" and "bool" in f.typestr(d.get("t"))}
+        for d, decl in decls.items():
+            sets = [w for w, t in lvalue_writes(f) if X.strip(t)["k"] == "DeclRefExpr" and X.strip(t).get("d") == d and
+                    w["k"] == "BinaryOperator" and w.get("op") == "=" and C._lit(X.strip(X.kids(w)[1])) == 1]
+            for w in sets:
+                loops = [a for a in f.ancestors(w) if a["k"] in LOOPS]
+                if len(loops) < 2:
+                    continue
+                lin, lout = loops[0], loops[1]
+                in_ids = {x["i"] for x in walk(lin)}
+                body = lout["c"][-1]
+                out_ids = {x["i"] for x in walk(body)} if body is not None else set()
+                reads = [x for x in walk(body) if x["k"] == "DeclRefExpr" and x.get("d") == d and x["i"] not in in_ids] if body is not None else []
+                reads = [x for x in reads if not any(X.strip(t) is x for w2, t in lvalue_writes(f))]
+                if not reads:
+                    continue
+                n += 1
+                fresh = decl["i"] in out_ids or any(
+                    X.strip(t)["k"] == "DeclRefExpr" and X.strip(t).get("d") == d and w2["i"] in out_ids and w2["i"] not in in_ids and
+                    w2["k"] == "BinaryOperator" and w2.get("op") == "=" and C._lit(X.strip(X.kids(w2)[1])) == 0 for w2, t in lvalue_writes(f))
+                rep.add("C14-R8", "%s|%s" % (f.q, decl.get("n")), f.loc(w), "%s: `%s` is set by an inner search loop and tested by the enclosing loop; it is %s" % (
+                    f.q, decl.get("n"), "declared or reset inside the enclosing loop's body" if fresh else "NOT re-initialised for each iteration of the enclosing loop"), fresh,
+                    detail="after the first hit every later iteration sees the stale answer", func=f.q)
+    if n < 1:
+        raise AnalysisBroken("C14-R8: no per-iteration search flag found in the multiple-walker code (update_replicas_registry expected)")
+
+
 def run(F, rep, tier):
+    r8(F, rep)
     r1(F, rep)
     r2_r3(F, rep)
     r4(F, rep)
